@@ -113,12 +113,15 @@ pub fn reset() {
         G = Ghost::new();
         HANDLES = [None, None];
         HSLOT = [(0, NOSLOT); NH];
+        HACTIVE = [true; NH];
         CHILD_DEPTH = 0;
     }
     #[cfg(futures_buffered_verif)]
     {
         futures_buffered::verif::set_sched(None);
         futures_buffered::verif::probe_reset();
+        #[cfg(futures_buffered_verif_model)]
+        futures_buffered::verif::model_waker::reset();
     }
 }
 
@@ -208,6 +211,12 @@ pub fn install_handle(h: usize, w: Waker, group: u8, slot: u8) {
     }
 }
 
+pub static mut HACTIVE: [bool; NH] = [true; NH];
+
+pub fn set_handle_active(h: usize, a: bool) {
+    unsafe { HACTIVE[h] = a }
+}
+
 pub fn handle_present(h: usize) -> bool {
     unsafe { HANDLES[h].is_some() }
 }
@@ -215,6 +224,9 @@ pub fn handle_present(h: usize) -> bool {
 /// the environment invokes retained handle `h` (wake_by_ref)
 pub fn env_fire(h: usize) {
     unsafe {
+        if !HACTIVE[h] {
+            return;
+        }
         if let Some(w) = &HANDLES[h] {
             let (gr, s) = HSLOT[h];
             note_child_wake(gr, s);
@@ -227,18 +239,24 @@ pub fn env_fire(h: usize) {
 #[cfg(futures_buffered_verif_model)]
 pub fn env_begin(h: usize) {
     unsafe {
+        if !HACTIVE[h] {
+            return;
+        }
         if let Some(w) = &HANDLES[h] {
             let (gr, s) = HSLOT[h];
             note_child_wake(gr, s);
-            futures_buffered::verif::model_waker::wake_begin(w.data());
+            futures_buffered::verif::model_waker::wake_begin(w);
         }
     }
 }
 #[cfg(futures_buffered_verif_model)]
 pub fn env_finish(h: usize) {
     unsafe {
+        if !HACTIVE[h] {
+            return;
+        }
         if let Some(w) = &HANDLES[h] {
-            futures_buffered::verif::model_waker::wake_finish(w.data());
+            futures_buffered::verif::model_waker::wake_finish(w);
         }
     }
 }
@@ -322,12 +340,26 @@ mod stubs {
         unsafe { CHILD_DEPTH -= 1 }
     }
 
+    /// the list a non-task waker belongs to; the vtable address is concrete,
+    /// so symex resolves this without the solver
+    fn list(w: &Waker) -> usize {
+        match mw::list_of(w) {
+            Some(l) => l,
+            None => {
+                assert!(false, "STUB:waker is neither a task waker nor a model child waker");
+                kani::assume(false);
+                0
+            }
+        }
+    }
+
     pub fn wake_by_ref(w: &Waker) {
         if is_task(w) {
             unsafe { t_wake_by_ref(w.data()) }
         } else {
+            let l = list(w);
             enter();
-            unsafe { mw::wake_by_ref(w.data()) };
+            mw::wake_by_ref(l, w.data());
             leave();
         }
     }
@@ -337,8 +369,9 @@ mod stubs {
         if is_task(&w) {
             unsafe { t_wake(w.data()) }
         } else {
+            let l = list(&w);
             enter();
-            unsafe { mw::wake(w.data()) };
+            mw::wake(l, w.data());
             leave();
         }
     }
@@ -347,7 +380,8 @@ mod stubs {
         if is_task(w) {
             unsafe { Waker::from_raw(t_clone(w.data())) }
         } else {
-            unsafe { Waker::from_raw(mw::clone(w.data())) }
+            let l = list(w);
+            unsafe { Waker::from_raw(mw::clone(l, w.data())) }
         }
     }
 
@@ -355,8 +389,9 @@ mod stubs {
         if is_task(w) {
             unsafe { t_drop(w.data()) }
         } else {
+            let l = list(w);
             enter();
-            unsafe { mw::drop(w.data()) };
+            mw::drop(l, w.data());
             leave();
         }
     }
